@@ -12,7 +12,8 @@ META = {
             "throwEarly) over an uninterpreted carrier returns in lane l exactly the operation tree of the scalar LU on the lane-l matrix "
             "(solve, invert: unless some lane is singular, then FMatrixError; determinant: every lane; the pre-1209091 select-before-product "
             "code kept as a refuted history statement); mv and infinity_norm lane-wise (pre-1037165 HasNaN-not-forwarded code refuted as history); "
-            "the literal per-lane swap loops (rows, rhs, column un-permutation) equal the model's gathers.  Tied to dune/common/simd/loop.hh, interface.hh, "
+            "the literal per-lane swap loops (rows, rhs, column un-permutation) equal the model's gathers; HasNaN/IsNumber/lanes/Scalar/Rebind "
+            "are forwarded through LoopSIMD<t,S,A> for every S and alignment A (C09_traits_forward).  Tied to dune/common/simd/loop.hh, interface.hh, "
             "defaults.hh, standard.hh and densematrix.hh on every run (operator table along the extracted lane plan, matrices bit for bit, "
             "valgrind memcheck for dependence on uninitialised lanes).",
     "note": "Trusted: Coq kernel, extraction, OCaml driver (IEEE doubles as carrier), C++ harness, g++ -ffp-contract=off -fwrapv; "
@@ -184,6 +185,11 @@ class OpGen:
         unary("nzmask")
         binary("nzmask", ["mor"], pairs); binary("nzmask", ["mand"], pairs)
         unary("", "lane"); unary("", "lanes"); unary("", "icast")
+        sc = scalar_type(T)
+        for S in Slist:
+            desc = ("simd %d 32 scalar %s" % (S, sc)) if T == "adouble" else ("simd %d 0 scalar %s" % (S, sc)) if m == 1 else \
+                   ("simd %d 0 simd %d %d scalar %s" % (S, m, 32 if m == 4 else 0, sc))
+            self.add(T, S, m, "", "traits", desc.split())
         for x in A[:8]:
             for S in Slist: self.add(T, S, m, "", "bcast", [x])
         ncond = 60 if self.quick else 400
@@ -347,9 +353,59 @@ class LuGen:
         r = self.rng
         lanes = [self.lane_matrix(n, f) for f in fams]
         vals = [dbits(lanes[l][i][j]) for i in range(n) for j in range(n) for l in range(S)]
-        if kind in ("solve", "mv"):
+        if kind in ("solve", "mv", "prods"):
             vals += [dbits(float(r.randint(-5, 5)) if r.random() < 0.7 else r.uniform(-3, 3)) for _ in range(n * S)]
         return "%s %s %d %d %d %s" % (prefix, kind, n, S, 1 if piv else 0, " ".join(vals))
+
+    def nanpos_cases(self, prefix, S, ns):
+        """NaN / inf in every (first, middle, last) row x column position of ONE lane, for all norms (the NaN-propagating
+        infinity_norm must not lose it whatever its position) and for mv / prods"""
+        r = self.rng
+        out = []
+        for n in ns:
+            pos = sorted(set([0, n // 2, n - 1]))
+            lanes = sorted(set([0, S - 1] + ([S // 2] if not self.quick else [])))
+            for l in lanes:
+                for pr in pos:
+                    for pc in pos:
+                        for v in ([float("nan"), INF] if self.quick else [float("nan"), INF, -INF]):
+                            A = [[[float(r.randint(-4, 4)) for _ in range(S)] for _ in range(n)] for _ in range(n)]
+                            A[pr][pc][l] = v
+                            vals = [dbits(A[i][j][k]) for i in range(n) for j in range(n) for k in range(S)]
+                            out.append("%s norms %d %d 1 %s" % (prefix, n, S, " ".join(vals)))
+                            if pr == pc:
+                                b = [dbits(float(r.randint(-3, 3))) for _ in range(n * S)]
+                                out.append("%s %s %d %d 1 %s" % (prefix, r.choice(["mv", "prods"]), n, S, " ".join(vals + b)))
+        return out
+
+    def gen_tagged(self):
+        """the dense-matrix stream over the over-aligned, float, nested and Rebind-derived number types"""
+        r = self.rng
+        cases = []
+        N = 6 if self.quick else 60
+        sing = ["plu0", "zerocol", "dupcol", "duprow", "zerorow", "zero"]
+        for tag, (kind, S, desc, dbl) in VTYPES.items():
+            pre = "lu:" + tag
+            cases.append("%s traits 0 %d 0 %s" % (pre, S, desc))
+            for n in (4, 5):
+                for k in ("det", "solve", "invert"):
+                    for l in range(S):
+                        fams = [(r.choice(sing) if j == l else r.choice(["plu", "graded", "int"])) for j in range(S)]
+                        cases.append(self.case(pre, k, n, S, True, fams))
+                    for _ in range(N):
+                        cases.append(self.case(pre, k, n, S, r.random() < 0.8, [r.choice(self.FAMS) for _ in range(S)]))
+                    cases.append(self.case("dlu:" + tag, k, n, S, True, [r.choice(self.FAMS) for _ in range(S)]))
+            for n in (1, 2, 3):
+                for k in ("det", "solve", "invert"):
+                    for _ in range(3 if self.quick else 20):
+                        cases.append(self.case(pre, k, n, S, True, [r.choice(["int", "rand", "plu", "zerocol", "special"]) for _ in range(S)]))
+            for n in (1, 2, 3, 4, 5):
+                for k in ("mv", "prods", "norms"):
+                    for _ in range(2 if self.quick else 12):
+                        cases.append(self.case(pre, k, n, S, True, [r.choice(["int", "rand", "special", "graded"]) for _ in range(S)]))
+            cases += self.nanpos_cases(pre, S, (1, 2, 3, 5) if self.quick else (1, 2, 3, 4, 5))
+            cases += self.nanpos_cases("dlu:" + tag, S, (3,))
+        return cases
 
     def gen(self, Slist):
         r = self.rng
@@ -380,13 +436,31 @@ class LuGen:
                     for _ in range(max(3, N // 3)):
                         cases.append(self.case("lu", kind, n, S, True, [r.choice(["int", "rand", "plu", "zerocol", "special"]) for _ in range(S)]))
             for n in (1, 2, 3, 4, 5):
-                for kind in ("mv", "norms"):
+                for kind in ("mv", "norms", "prods"):
                     for _ in range(max(2, N // 5)):
                         cases.append(self.case("lu", kind, n, S, True, [r.choice(["int", "rand", "special", "graded"]) for _ in range(S)]))
-        return cases
+            cases.append("lu traits 0 %d 0 simd %d 0 scalar double" % (S, S))
+            cases += self.nanpos_cases("lu", S, (2, 4) if self.quick else (1, 2, 3, 4, 5))
+        return cases + self.gen_tagged()
 
 
-ZERO = ("0000000000000000", "8000000000000000")
+# further number types of the dense-matrix stream: tag -> (C09_VKIND, flat lanes, type descriptor for the model, double carrier?)
+VTYPES = {
+    "a4": (1, 4, "simd 4 32 scalar double", True),                   # LoopSIMD<double,4,32>
+    "f8": (2, 8, "simd 8 64 scalar float", False),                   # LoopSIMD<float,8,64>
+    "n22": (3, 4, "simd 2 0 simd 2 0 scalar double", True),          # LoopSIMD<LoopSIMD<double,2>,2>
+    "na22": (4, 4, "simd 2 0 simd 2 16 scalar double", True),        # LoopSIMD<LoopSIMD<double,2,16>,2>
+    "rb": (5, 4, "simd 2 64 simd 2 16 scalar double", True),         # Rebind<double, LoopSIMD<LoopSIMD<int,2,16>,2,64>>
+}
+NORM_NAMES = ["frobenius_norm2", "frobenius_norm", "infinity_norm", "infinity_norm_real", "row0.one_norm", "row0.one_norm_real", "row0.two_norm2",
+              "row0.two_norm", "row0.infinity_norm", "row0.infinity_norm_real", "rowN.infinity_norm", "rowN.infinity_norm_real"]
+INF_NORM_IDX = (2, 3, 8, 9, 10, 11)
+
+def case_tag(case):
+    h = case.split()[0]
+    return h.split(":")[1] if ":" in h else ""
+
+ZERO = ("0000000000000000", "8000000000000000", "00000000", "80000000")
 
 def lu_split(line):
     return [f.strip() for f in line.split(" | ")]
@@ -396,6 +470,24 @@ def lu_oracle(case, impl):
     Returns None (accepted) or (signature, reason)."""
     t = case.split()
     kind, n, S = t[1], int(t[2]), int(t[3])
+    if kind == "traits":
+        # every trait of the simd type must equal the trait of its scalar type; lane counts as declared
+        bad = []
+        for name, a, b in re.findall(r"(\w+)=(\d+)/(\d+)", impl):
+            if a != b: bad.append("%s: simd type %s, scalar type %s" % (name, a, b))
+        m = re.search(r"\blanes=(\d+)", impl)
+        if not m: return ("C09:traits:no-result", "impl printed %r" % impl[:200])
+        for name in ("lanes", "mask_lanes", "rebind_long_lanes"):
+            mm = re.search(r"\b%s=(\d+)" % name, impl)
+            if mm and int(mm.group(1)) != S: bad.append("%s = %s, expected %d" % (name, mm.group(1), S))
+        for name in ("mask_scalar_bool", "rebind_same", "rebind_long_scalar", "rebind_back", "align_ok"):
+            mm = re.search(r"\b%s=(\d+)" % name, impl)
+            if mm and mm.group(1) != "1": bad.append("%s is false" % name)
+        mm = re.search(r"fm_hasnan=(\d)", impl); hs = re.search(r"hasnan=\d/(\d)", impl)
+        if mm and hs and mm.group(1) != hs.group(1): bad.append("HasNaN<FieldMatrix::value_type> %s, scalar %s" % (mm.group(1), hs.group(1)))
+        if bad:
+            return ("C09:traits:%s" % bad[0].split(":")[0].split(" ")[0], "; ".join(bad))
+        return None
     f = lu_split(impl)
     if len(f) != 2:
         return ("C09:%s:no-result" % kind, "impl printed %r" % impl[:200])
@@ -425,9 +517,9 @@ def lu_oracle(case, impl):
         l, mine, lv = bad[0]
         return ("C09:det:singular-lane", "lane %d of determinant() is %s but the scalar determinant of that lane's matrix is %s (singular lane)" % (l, mine[0], lv[0]))
     if kind == "norms":
-        names = ["frobenius_norm2", "infinity_norm", "infinity_norm_real", "row.one_norm", "row.two_norm2", "row.infinity_norm", "row.infinity_norm_real"]
+        names = NORM_NAMES
         diff = [(l, k) for l, mine, lv in bad for k in range(len(lv)) if mine[k] != lv[k]]
-        if all(k in (1, 2, 5, 6) and bad_lv[k] == "nan" for (l, k) in diff for bad_lv in [next(lv for ll, _, lv in bad if ll == l)]):
+        if all(k in INF_NORM_IDX and bad_lv[k] == "nan" for (l, k) in diff for bad_lv in [next(lv for ll, _, lv in bad if ll == l)]):
             l, k = diff[0]
             return ("C09:norms:infinity-norm-nan", "lane %d of %s() is %s but the scalar call on that lane's matrix returns nan (lane contains nan/inf)"
                     % (l, names[k], next(mine for ll, mine, _ in bad if ll == l)[k]))
@@ -467,6 +559,9 @@ def build(ctx, Slist):
     for S in Slist:
         jobs.append(dict(srcs=[os.path.join(H, "lu.cc")], out=ctx.path("lu%d" % S), flags=fl + ["-DC09_LANES=%d" % S]))
     if Slist:
+        for tag, (kind, S, desc, dbl) in VTYPES.items():
+            jobs.append(dict(srcs=[os.path.join(H, "lu.cc")], out=ctx.path("lu_" + tag), flags=fl + ["-DC09_VKIND=%d" % kind]))
+    if Slist:
         # unoptimised build for the memcheck stream (uninitialised reads are optimised into "anything" at -O1)
         jobs.append(dict(srcs=[os.path.join(H, "lu.cc")], out=ctx.path("lu_vg"), flags=fl + ["-DC09_LANES=%d" % (2 if 2 in Slist else Slist[0]), "-g"], opt="-O0"))
     if not ctx.quick and Slist:
@@ -482,7 +577,7 @@ def run_ops(ctx, model, Slist, cases, tag="ops"):
     evs, need = [], set()
     for c, p in zip(cases, plans):
         e = OpEval(c); evs.append(e)
-        if e.form == "lanes": continue
+        if e.form in ("lanes", "traits"): continue
         terms = []
         for vec in p.split(" ; "):
             terms.append([parse_term(x)[0] for x in vec.split()])
@@ -507,6 +602,8 @@ def run_ops(ctx, model, Slist, cases, tag="ops"):
     for c, e in zip(cases, evs):
         if e.form == "lanes":
             expected.append("%d %d" % (e.S * e.m, e.S * e.m)); continue
+        if e.form == "traits":
+            expected.append(plans[len(expected)]); continue
         expected.append(" ; ".join(" ".join(e.ev(tm, table) for tm in vec) for vec in e.terms))
     return impl, expected, plans, len(scases)
 
@@ -516,9 +613,10 @@ def run_lu(ctx, model, cases, tag="lu"):
     impl = [None] * len(cases)
     groups = {}
     for i, c in enumerate(cases):
-        groups.setdefault(int(c.split()[3]), []).append(i)
+        groups.setdefault(case_tag(c) or int(c.split()[3]), []).append(i)
     for S, idx in groups.items():
-        out = V.run_cases(ctx, [ctx.path("lu%d" % S)], [cases[i] for i in idx], tag="%s-impl%d" % (tag, S), timeout=300)
+        exe = ctx.path("lu%d" % S) if isinstance(S, int) else ctx.path("lu_" + S)
+        out = V.run_cases(ctx, [exe], [cases[i] for i in idx], tag="%s-impl%s" % (tag, S), timeout=300)
         for i, o in zip(idx, out): impl[i] = o
     return impl, mo
 
@@ -530,6 +628,17 @@ def judge_lu(ctx, cases, impl, mo, stats):
         stats["kinds"][kind] = stats["kinds"].get(kind, 0) + 1
         verdict = lu_oracle(c, a)
         mf = lu_split(m)
+        vt = (case_tag(c) or "LoopSIMD<double,S>"); stats["number_types"][vt] = stats["number_types"].get(vt, 0) + 1
+        if kind == "traits":
+            if verdict is not None:
+                nviol += 1
+                ctx.violation(verdict[0], {"case": c, "impl": a, "model": m, "oracle": verdict[1], "replay_cmd": "bin/check C09 --replay <this file>"})
+            elif a != m:
+                ndis += 1
+                ctx.violation("corr:C09/traits", {"broken": "corr:C09/traits", "case": c, "impl": a, "model": m, "oracle": "accepts impl output"}, found_input=False)
+            else:
+                stats["model_agreements"] += 1
+            continue
         modelled = n >= 4 and kind in ("det", "solve", "invert") and len(mf) >= 3
         if modelled:
             tr = mf[-1]
@@ -560,8 +669,8 @@ def judge_lu(ctx, cases, impl, mo, stats):
                 agree = len(af) == 2 and af[0] == mf[0] and af[1] == mf[1]
             else:
                 sv = af[0].split() if len(af) == 2 else []
-                inf_simd = " ".join(sv[S:2 * S])
-                inf_scal = " ; ".join(x.split()[1] if len(x.split()) > 1 else "?" for x in (af[1].split(" ; ") if len(af) == 2 else []))
+                inf_simd = " ".join(sv[2 * S:3 * S])
+                inf_scal = " ; ".join(x.split()[2] if len(x.split()) > 2 else "?" for x in (af[1].split(" ; ") if len(af) == 2 else []))
                 agree = inf_simd == mf[0] and inf_scal == mf[1]
             if agree:
                 stats["model_agreements"] += 1
@@ -650,13 +759,13 @@ def run(ctx):
             nop_viol += 1
             if nop_viol <= 40:
                 ctx.violation(sig_op(c), {"case": c, "impl": a, "spec": e, "model_plan": p,
-                                          "oracle": "some lane of the LoopSIMD result differs from the C++ scalar operation on that lane's operands (plan from the Coq model)",
+                                          "oracle": "traits of the simd type differ from the forwarded traits of its scalar type (Coq model c09_traits)" if t[5] == "traits" else "some lane of the LoopSIMD result differs from the C++ scalar operation on that lane's operands (plan from the Coq model)",
                                           "replay_cmd": "bin/check C09 --replay <this file>"})
     # ---------------- dense matrices
     lcases = LuGen(ctx).gen(Slist)
     ctx.log("dense matrices: %d cases" % len(lcases))
     limpl, lmo = run_lu(ctx, model, lcases)
-    stats = {"kinds": {}, "singular_step": {}, "cases_lanes_pivot_differently": 0, "cases_with_row_swap": 0, "cases_mixed_singular_regular": 0,
+    stats = {"kinds": {}, "number_types": {}, "singular_step": {}, "cases_lanes_pivot_differently": 0, "cases_with_row_swap": 0, "cases_mixed_singular_regular": 0,
              "cases_lane_singular_while_other_continues": 0, "model_agreements": 0}
     nviol, ndis = judge_lu(ctx, lcases, limpl, lmo, stats)
     stats["memcheck_cases"] = 0
@@ -711,7 +820,7 @@ def replay(ctx, path):
         return 0 if ok and not ctx.viol else 1
     model = V.build_model(ctx)
     S = int(case.split()[2 if case.startswith("op") else 3])
-    Slist = [S] if S else []
+    Slist = [S] if S and S in (1, 2, 3, 4, 8) else ([2] if not case.startswith("op") else [])
     build(ctx, Slist)
     if case.startswith("op"):
         impl, expected, plans, _ = run_ops(ctx, model, Slist, [case], tag="rops")
